@@ -4,8 +4,9 @@ opposite elements -- the inputs on which a two-input hash that adds the two imag
 With r = zeta r0^2, num(r) = (r+1)(a-2d), den(r) = (d r - (d-a))((d-a) r - d), the map's Jacobi-quartic coordinate
 satisfies  s^2 = num/den  (square case) or  s^2 = r num/den  (non-square case).  For a random r0 and each of the two
 values S in {num/den, r num/den} this script solves  S den(r') - num(r') = 0  (a quadratic: the other root is
-r' = c/(a r) by Vieta) and  S den(r') - r' num(r') = 0  (a cubic) for r', and also takes r' = 1/r (which gives the
-NEGATIVE of the image); whenever r'/zeta is a square, r0' = sqrt(r'/zeta) is emitted.  It only solves polynomial
+r' = c/(a r) by Vieta) and  S den(r') - r' num(r') = 0  (a cubic) for r', takes r' = 1/r (which gives the
+NEGATIVE of the image), and also the r' that share an intermediate value with r (same radicand num*den, same den,
+same r num den) without sharing its image; whenever r'/zeta is a square, r0' = sqrt(r'/zeta) is emitted.  It only solves polynomial
 equations; whether a pair really collides is decided by the specification when the recorded calls are validated.
 usage: elligator_pairs.py <out.ndjson> <n> <seed>      one [[32 bytes],[32 bytes]] per line"""
 import json, random, sys, os
@@ -37,6 +38,14 @@ def main():
             for poly in (quad, cub):
                 for rr in P.roots(list(poly), rng):
                     cands.add(rr)
+        # inputs that share an INTERMEDIATE value with r without having the same image: the same radicand
+        # num*den (what the inner square root sees), the same den, the same r*num*den
+        xpoly = P.pmul(num_poly, den_poly)
+        for poly, val in ((xpoly, num * den % Q), (den_poly, den), (P.pmul([0, 1], xpoly), r * num % Q * den % Q)):
+            shifted = list(poly)
+            shifted[0] = (shifted[0] - val) % Q
+            for rr in P.roots(shifted, rng):
+                cands.add(rr)
         for rr in cands:
             if rr in (r, 0):
                 continue
